@@ -103,12 +103,14 @@ theorem generated_column_lt_total (c total : Nat) (hc : c < total) :
   ConvertWF.column_lt_total _ total (by omega)
 
 /-- `mania::convert` ends with `sort_by(start_time)` (std, stable) followed by the legacy sort: the
-start times stay non-decreasing and nothing is lost. -/
+legacy sort returns (no panic, terminates — `C06.legacy_sort_objects_total`), the start times stay
+non-decreasing and nothing is lost. -/
 theorem mania_final_sort {τ : Type} [DecidableEq τ]
-    (l l' : List (Int × τ)) (hs : KeysSorted (fun p => norm p.1) l)
-    (h : legacySort objGt objLt l = some l') :
-    l'.Perm l ∧ (l'.map (fun p => norm p.1)).Pairwise (· ≤ ·) := by
-  refine ⟨legacySort_perm h, ?_⟩
+    (l : List (Int × τ)) (hs : KeysSorted (fun p => norm p.1) l) :
+    ∃ l', legacySort objGt objLt l = some l' ∧
+      l'.Perm l ∧ (l'.map (fun p => norm p.1)).Pairwise (· ≤ ·) := by
+  obtain ⟨l', h, _⟩ := C06.legacy_sort_objects_total l
+  refine ⟨l', h, legacySort_perm h, ?_⟩
   rw [C06.legacy_sort_keeps_sorted_keys l l' hs h]
   exact hs
 
